@@ -20,6 +20,9 @@ type c12Case struct {
 	Ks []int `json:"ks,omitempty"`
 	// SecondRender: the faulty render is preceded by a clean one (boundary/header caches set).
 	SecondRender bool `json:"second_render"`
+	// Sign: S/MIME-sign the message (ecdsa). The outer boundary and the signature change per render,
+	// so offsets closer than 64 bytes to the end of the reference output are not tried.
+	Sign bool `json:"sign,omitempty"`
 }
 
 var errSink = errors.New("verif: injected sink failure")
@@ -55,6 +58,12 @@ func c12Render(c *c12Case, sink *faultSink) (n int64, err error, panicked interf
 	b, berr := gen.Build(&c.Spec, env)
 	if berr != nil {
 		return 0, nil, fmt.Sprintf("BUILD:%v", berr)
+	}
+	if c.Sign {
+		chain := signingChain("ecdsa", false)
+		if serr := b.Msg.SignWithKeypair(chain.Key, chain.Leaf, nil); serr != nil {
+			return 0, nil, fmt.Sprintf("BUILD:%v", serr)
+		}
 	}
 	if c.SecondRender {
 		// a clean first render; producers armed by invocation count are not consumed by it
@@ -125,14 +134,18 @@ func c12Run(c c12Case) []*core.Violation {
 		return []*core.Violation{core.V("count", "fault-free render: WriteTo returned n=%d but wrote %d bytes", n, total)}
 	}
 	ks := c.Ks
+	limitK := total
+	if c.Sign {
+		limitK = total - 64
+	}
 	if ks == nil {
-		for k := 0; k < total; k++ {
+		for k := 0; k < limitK; k++ {
 			ks = append(ks, k)
 		}
 	}
 	multipart := len(c.Spec.Parts)+len(c.Spec.Embeds)+len(c.Spec.Attachments) > 1
 	for _, k := range ks {
-		if k < 0 || k >= total {
+		if k < 0 || k >= limitK {
 			continue
 		}
 		for _, partial := range []bool{true, false} {
@@ -144,7 +157,7 @@ func c12Run(c c12Case) []*core.Violation {
 			if multipart {
 				posClass = fmt.Sprintf("multi@%d%%", (k*10/total)*10)
 			}
-			rec.NonTrivial(core.Join(shape, posClass, partial, c.SecondRender))
+			rec.NonTrivial(core.Join(shape, posClass, partial, c.SecondRender, c.Sign))
 			if pan != nil {
 				return []*core.Violation{core.V("panic", "WriteTo panicked with the sink failing at offset %d/%d (partial=%v, second render=%v): %v", k, total, partial, c.SecondRender, pan)}
 			}
@@ -185,7 +198,10 @@ func c12Gen(t *rapid.T) c12Case {
 	for i := range spec.Attachments {
 		spec.Attachments[i].Content = trim(spec.Attachments[i].Content)
 	}
-	c := c12Case{Spec: *spec, SecondRender: rapid.Bool().Draw(t, "second")}
+	c := c12Case{Spec: *spec, SecondRender: rapid.Bool().Draw(t, "second"), Sign: rapid.IntRange(0, 5).Draw(t, "sign") == 0}
+	if c.Sign {
+		c.Spec.FixedDate = false
+	}
 	// one case in three: a producer fault instead of sink faults
 	if rapid.IntRange(0, 2).Draw(t, "prodfault") == 0 {
 		n := len(spec.Parts) + len(spec.Embeds) + len(spec.Attachments)
@@ -212,7 +228,7 @@ func TestC12(t *testing.T) {
 	rec := core.Rec("C12")
 	rec.Rule = "message programs drawn by rapid (0..3 parts, 0..2 embeds, 0..2 attachments, 3 encodings, all file sources, contents <= 90 bytes); " +
 		"for each program EVERY sink offset k in [0,len(output)) is tried in two sink modes (partial accept / whole-write refusal), on the first or the second render; " +
-		"one program in three instead has one producer failing after 0..len bytes. Non-trivial: every faulty render; distinct by (shape incl. per-leaf encoding and content classes, decile of k for multipart messages, sink mode, render index)."
+		"one program in three instead has one producer failing after 0..len bytes; one program in six is S/MIME-signed (ECDSA; offsets up to 64 bytes before the end, because boundary and signature change per render). Non-trivial: every faulty render; distinct by (shape incl. per-leaf encoding and content classes, decile of k for multipart messages, sink mode, render index)."
 	rec.Assumptions = []string{"sinks obey the io.Writer contract (n<len(p) only together with an error) and keep failing after the first failure"}
 	core.Prop[c12Case]{ID: "C12", Test: "TestC12", Gen: c12Gen, Run: c12Run}.Check(t)
 }
